@@ -43,6 +43,11 @@ struct Cell {
 
 bool g_on = false;
 bool g_atomic_yield = false;   // every atomic operation of instrumented code is a scheduling point (rd_atomic_yield)
+// rd_access_yield(p, seed): every instrumented plain access becomes a scheduling point with probability p / 100000.
+// Executions are then no longer atomic between synchronisation operations, so that code which lost its mutual
+// exclusion really gets torn (for data-race-free code this adds no behaviour).
+uint32_t g_access_yield_p = 0;
+uint64_t g_access_rng = 88172645463325252ULL;
 VC g_vc[MAXT];
 std::map<const void *, VC> g_sync;        // mutexes, atomics
 VC g_final[MAXT];
@@ -110,6 +115,12 @@ void report(uintptr_t addr, const Acc &prev, bool prev_w, int t, uintptr_t pc, b
 
 void access(uintptr_t addr, size_t size, bool is_write, uintptr_t pc, bool atomic = false) {
     if (!live() || tl_busy) return;
+    if (g_access_yield_p && !atomic) {
+        g_access_rng ^= g_access_rng << 13;
+        g_access_rng ^= g_access_rng >> 7;
+        g_access_rng ^= g_access_rng << 17;
+        if ((g_access_rng >> 11) % 100000 < g_access_yield_p) vs::yield("acc");
+    }
     Busy busy;
     tl_last_pc = pc;
     int t = me();
@@ -240,6 +251,11 @@ int rd_report(int i, char *buf, int n) {
 }
 void rd_ignore(int delta) { rd::tl_ignore += delta; }
 void rd_atomic_yield(int on) { rd::g_atomic_yield = on != 0; }
+void rd_access_yield(int per_100000, unsigned seed) {
+    rd::g_access_yield_p = per_100000 > 0 ? (uint32_t) per_100000 : 0;
+    rd::g_access_rng = 88172645463325252ULL ^ ((uint64_t) seed * 0x9E3779B97F4A7C15ULL);
+    if (rd::g_access_rng == 0) rd::g_access_rng = 1;
+}
 
 // ---- the tsan ABI the instrumented objects call -----------------------------------------------------
 #define PC ((uintptr_t) __builtin_return_address(0))
